@@ -180,7 +180,11 @@ def _special_value(v):
 def build(sc):
     """Build the WBS through the public API. Returns (wbs, [task objects in sc order], [ext task objects])."""
     from pjplan import Task, WBS
-    w = WBS()
+    if sc.layer == 'L2n':
+        # the WBS object itself is given a name and dates (attributes of the plan as a whole): they are no task
+        w = WBS(name='plan', start=sc.anchor - 100 * DAY, end=sc.anchor + 300 * DAY, estimate=77, spent=5)
+    else:
+        w = WBS()
     objs = []
     for (tid, par, attrs) in sc.tasks:
         # custom attributes of several kinds: a text, and - on every second task - values that are falsy or None
@@ -214,7 +218,37 @@ def build(sc):
         if isinstance(e, RecursionError):
             raise
         raise BuildRejected(str(e))
+    if sc.layer == 'L1p':
+        _poke(objs)
     return w, objs, ext
+
+
+def _poke(objs):
+    """Illegal assignments, each expected to be rejected and to change nothing: replace a task's dependency lists by a self-link,
+    by its parent, by its first child, by one of its successors / predecessors (a cycle); make a task its own parent / child."""
+    for t in objs:
+        bad = [t]
+        if t.parent is not None:
+            bad.append(t.parent)
+        bad += list(t.children)[:1]
+        for b in bad + list(t.successors)[:1]:
+            try:
+                t.predecessors = [b]
+            except RuntimeError as e:
+                if isinstance(e, RecursionError):
+                    raise
+        for b in bad + list(t.predecessors)[:1]:
+            try:
+                t.successors = [b]
+            except RuntimeError as e:
+                if isinstance(e, RecursionError):
+                    raise
+        for fn in (lambda: setattr(t, 'parent', t), lambda: setattr(t, 'children', [t])):
+            try:
+                fn()
+            except RuntimeError as e:
+                if isinstance(e, RecursionError):
+                    raise
 
 
 class Exec:
